@@ -166,7 +166,7 @@ def cases(draw):
 
 
 def jobs(tier, seed):
-    per = 130 if tier == 'quick' else 6000
+    per = 500 if tier == 'quick' else 12000
     return [(core.derive_seed(seed, 'c19', i), per) for i in range(16)]
 
 
